@@ -1,10 +1,10 @@
 SPECIFICATION Spec
 CONSTANTS
-  Dims = {4}
-  MaxBins = 3
-  BinChoices = {1, 2, 3}
+  Dims = {1, 2}
+  MaxBins = 12
+  BinChoices = {1, 4, 7, 10, 12}
   Scales = {0}
-  Bounds <- DBounds
+  Bounds <- W2Bounds
 INVARIANT Exact
 INVARIANT Representable
 INVARIANT CountIsProduct
